@@ -142,6 +142,21 @@ def decompose (sf : SF K) (fnGiven : Option (Option Functional)) (lvGiven : Opti
     let scoreRecal ← sfMean sf ys recal w
     pure ⟨score - scoreRecal, scoreMarg - scoreRecal, scoreMarg, score⟩)
 
+/-- `decompose` for a scoring function that is a plain callable: it has neither a `functional` nor a `level`
+attribute, so `functional=None` is rejected ("You set functional=None, but scoring_function has no attribute
+functional"), and so is `level=None` for the two functionals that need a level; for the mean and the median the
+level defaults to 0.5 without looking at the callable. `sf` says what the callable computes. -/
+def decomposePlain (sf : SF K) (fnGiven : Option (Option Functional)) (lvGiven : Option K)
+    (ys : List K) (cols : List (List K)) (w : Option (List K)) : Except Err (List (DecompRow K)) :=
+  match fnGiven with
+  | none => throw Err.valueError
+  | some fn =>
+    match lvGiven with
+    | some l => decompose sf (some fn) (some l) ys cols w
+    | none =>
+      if fn = some .expectile ∨ fn = some .quantile then throw Err.valueError
+      else decompose sf (some fn) (some half) ys cols w
+
 end Decompose
 
 instance : Zero Float := ⟨0.0⟩
